@@ -1,5 +1,5 @@
 CONSTANTS WithInject = TRUE
-          Cover = FALSE
+          Cover = TRUE
 INIT Init
 NEXT Next
 CHECK_DEADLOCK FALSE
